@@ -78,6 +78,7 @@ class Patched:
         self.effective = 0
         self.kinds = set()
         self.violation = None
+        self.rows = {}          # address of a ranking's row -> its state after the last move applied to it
 
     def __enter__(self):
         self.saved = {k: getattr(ranking_mod, k) for k in ("randint", "shuffle") if hasattr(ranking_mod, k)}
@@ -93,6 +94,7 @@ class Patched:
             def wrapper(ranking, elem, _fn=fn, _name=name):
                 before = ranking.copy()
                 _fn(ranking, elem)
+                self.rows[ranking.__array_interface__["data"][0]] = ranking.tolist()
                 if not np.array_equal(before, ranking):
                     self.effective += 1
                     self.kinds.add(_name)
@@ -144,10 +146,32 @@ def check_walk(case, ctx):
     if p.violation:
         raise Violation(p.violation)
     what = "generate(n=%d, m=%d, steps=%d, complete=%s)" % (n, m, steps, complete)
+    # final state of every ranking of the walk: the rows the moves were applied to, the others are still [0..n-1]
+    finals = list(p.rows.values()) + [list(range(n))] * max(0, m - len(p.rows))
+    emptied = sum(1 for st_ in finals if all(v < 0 for v in st_))
+    tracked = len(p.rows) <= m and (p.tape.calls > 0 or steps == 0)
     if raised is not None:
         if isinstance(raised, EmptyDatasetException) and not complete and case["via_dataset"]:
+            # the only documented failure: EVERY ranking lost all its elements
+            if tracked and emptied != m:
+                raise Violation("%s raised EmptyDatasetException although %d of the %d rankings still rank elements "
+                                "(final states %s)" % (what, m - emptied, m, finals))
             return
         raise Violation("%s raised %s: %s" % (what, type(raised).__name__, str(raised)[:200]))
+    if tracked and not complete:
+        # the rankings handed back are the final states of the walks, emptied ones left out
+        def as_buckets(st_):
+            out = {}
+            for e, b in enumerate(st_):
+                if b >= 0:
+                    out.setdefault(b, []).append(e)
+            return oracle.canon([out[b] for b in sorted(out)])
+        from collections import Counter
+        want = Counter(as_buckets(st_) for st_ in finals if any(v >= 0 for v in st_))
+        got = Counter(oracle.canon(lib.model_of_ranking(r)) for r in rankings)
+        if got != want:
+            raise Violation("%s returned %s, the walks ended in the states %s" % (
+                what, [lib.model_of_ranking(r) for r in rankings], finals))
     if complete and len(rankings) != m:
         raise Violation("%s returned %d rankings" % (what, len(rankings)))
     if len(rankings) > m:
